@@ -27,6 +27,9 @@ TRUSTED = [
     "length and has DC gain 1 (fcn_cosine(b)(0)=0); window weights sum to a non-zero number; the field has "
     "characteristic 0",
     "float64 n*pad modelled exactly by integer round-to-nearest-even to 53 bits (IEEE-754 host fact)",
+    "svd_rank is the exact integer floor(rank*size/nc); that the source's float64 expression int(rank*size/nc) "
+    "equals it is a checked hypothesis: swept exhaustively for every nc <= 200 (quick) / 400 (thorough) on each run, "
+    "and the ranks actually passed to _svd_denoise are compared for every collection size 1..100",
     "harness/pC20.py generators, canonicalisers, tolerances and oracle; during the cadzow phase numba.jit is the "
     "identity decorator (iblutil's ismember2d otherwise re-compiles its helper on every call); one layout per run "
     "is evaluated with and without it and compared",
@@ -415,11 +418,10 @@ def cadzow_oracle(ctx, kind, ncol, nrow, sites, meas, full=None, light=False):
             meas.setdefault("cadzow_noise_ratio_rank1", []).append(round(ratio, 4))
 
 
-def svd_groups_observe(coll, rank):
+def svd_groups_observe(coll, rank, nc=None):
     """svd_denoise_npx with the external _svd_denoise replaced by a recording identity; row i of the data
     holds the number i, so the recorded blocks show which traces were passed, in which order, with which rank"""
     from ibldsp import voltage
-    nc = len(coll)
     calls = []
 
     def fake(datr, rank):
@@ -428,6 +430,7 @@ def svd_groups_observe(coll, rank):
     orig = voltage._svd_denoise
     voltage._svd_denoise = fake
     try:
+        nc = len(coll) if coll is not None else nc
         data = np.tile(np.arange(nc, dtype=float)[:, None], (1, 3))
         out = voltage.svd_denoise_npx(data, rank=rank or None, collection=None if coll is None else np.array(coll))
     finally:
@@ -441,6 +444,36 @@ def svd_groups_observe(coll, rank):
 def svd_oracle(ctx, meas):
     from ibldsp import voltage
     rng = np.random.default_rng(ctx.rng.randrange(2 ** 31))
+    # every collection carries data of rank m and the requested rank is ncoll * m (>= rank of the data,
+    # per-collection share exactly m): the input must come back.  Sizes include the non-round 47, 49, 98.
+    sizes = [47, 49, 98, 7, 13, 31, 64, 96] + [ctx.rng.randrange(4, 100) for _ in range(12 if ctx.thorough() else 4)]
+    for size in sizes:
+        for ncoll in (1, 2, 3):
+            if ncoll * size > 300:
+                continue
+            nc = ncoll * size
+            coll = np.arange(nc) % ncoll
+            for m in (1, 2, 3):
+                if m > size:
+                    continue
+                ns = 40
+                d = np.zeros((nc, ns))
+                for col in range(ncoll):
+                    ind = np.where(coll == col)[0]
+                    d[ind, :] = rng.standard_normal((ind.size, m)) @ rng.standard_normal((m, ns))
+                desc = {"fn": "svd_denoise_npx", "collections": ncoll, "collection_size": size, "data_rank_per_collection": m,
+                        "rank": ncoll * m}
+                try:
+                    out = voltage.svd_denoise_npx(d, rank=ncoll * m, collection=coll if ncoll > 1 else None)
+                except Exception as e:  # noqa
+                    ctx.fail("svd_denoise_npx raised %r" % (e,), desc, {"kind": "svd_exception"})
+                    continue
+                err = float(np.max(np.abs(out - d)) / np.max(np.abs(d)))
+                meas["svd_percollection_lowrank_max_rel_err"] = max(meas.get("svd_percollection_lowrank_max_rel_err", 0.0), err)
+                if not err < 1e-9:
+                    ctx.fail("svd_denoise_npx with rank >= rank of the data does not return its input "
+                             "(%d collections of %d channels, rank %d each, rel err %g)" % (ncoll, size, m, err),
+                             desc, {"kind": "svd_identity_percollection"})
     for nc, ns, ncoll in [(8, 30, 1), (12, 40, 2), (16, 20, 4), (24, 50, 3), (5, 9, 1)]:
         d = rng.standard_normal((nc, ns))
         coll = None if ncoll == 1 else np.sort(rng.integers(0, ncoll, nc))
@@ -871,6 +904,40 @@ def _run(ctx):
         add([9, nc, rank] + coll, obs, desc)
         if len(set(coll)) > 1:
             nontrivial.add(("svd", tuple(coll), rank))
+    # every collection size 1..100 (not only round ones) x 1-4 interleaved collections x ranks whose exact
+    # per-collection share rank*size/nc is an integer (1, 2, 3, size) or not: the rank passed to _svd_denoise
+    # must be the exact floor (the model's svd_rank); a pre-divided ratio is off by one e.g. for size 49
+    for size in range(1, 101):
+        for ncoll in (1, 2, 3, 4):
+            if not T and (size + ncoll) % 2 and size not in (47, 49, 98):
+                continue
+            nc = size * ncoll
+            coll = [i % ncoll for i in range(nc)]
+            ranks = sorted({ncoll * m for m in (1, 2, 3, size) if m <= size} |
+                           {rng.randrange(1, nc + 1), 0, nc} | ({ncoll * 4, ncoll * 8} if size > 8 else set()))
+            for rank in ranks:
+                desc = {"fn": "svd_denoise_npx(groups)", "collection": coll, "rank": rank or None}
+                try:
+                    obs = svd_groups_observe(coll if ncoll > 1 else None, rank, nc=nc)
+                except Exception as e:  # noqa
+                    ctx.fail("svd_denoise_npx raised %r" % (e,), desc, {"kind": "svd_exception"})
+                    continue
+                count("svd_size_sweep_cases")
+                add([9, nc, rank] + coll, obs, desc)
+    # the float64 expression of the source, int(rank * size / nc), is the exact integer floor (hypothesis of the
+    # model's svd_rank): exhaustive for every nc <= 400 (thorough) / 200 (quick), size <= nc, rank <= nc + 2
+    bad_triples = 0
+    ntriples = 0
+    for nc in range(1, (400 if T else 200) + 1):
+        sz = np.arange(0, nc + 1, dtype=np.int64)[:, None]
+        rk = np.arange(0, nc + 3, dtype=np.int64)[None, :]
+        fl = (rk * sz / nc).astype(np.int64)           # same operations as the source: int * int / int -> float64 -> int()
+        bad_triples += int(np.count_nonzero(fl != (rk * sz) // nc))
+        ntriples += fl.size
+    meas["svd_rank_float_vs_exact_floor"] = {"triples": ntriples, "mismatches": bad_triples}
+    if bad_triples:
+        ctx.disagree("int(rank * size / nc) in float64 differs from the exact floor for %d triples" % bad_triples,
+                     {"fn": "svd_rank float sweep"})
     if meas.get("svd_noise_ratio"):
         r = meas["svd_noise_ratio"]
         meas["svd_noise_ratio"] = {"n": len(r), "max": max(r), "median": float(np.median(r))}
